@@ -112,6 +112,15 @@ class _FuseReluClipBase(RewriteRuleClassBase, abc.ABC):
             if ir.convenience.get_const_tensor(m) is None:
                 return check_result.fail(f"{m.name} is not a constant.")
 
+            # Clip ignores a NaN bound whereas np.maximum/np.minimum propagate it into the fused bound.
+            bound = ir.convenience.get_const_tensor(m).numpy().astype(np.float64)
+            if np.isnan(bound).any():
+                return check_result.fail(f"{m.name} is NaN.")
+            # An absent bound clamps an infinity to the largest finite value, an infinite bound does not:
+            # two Clips with an infinite bound are not equivalent to one Clip with the combined bounds.
+            if kwargs.get("out_second_clip") is not None and np.isinf(bound).any():
+                return check_result.fail(f"{m.name} is infinite.")
+
         # The fused bounds are computed in the element type of the Clip input, which must be known.
         clip_nodes = [first_clip_node]
         if out_second_clip := kwargs.get("out_second_clip"):
